@@ -6,6 +6,7 @@ package httpserver
 
 import (
 	"encoding/json"
+	"math"
 	"testing"
 
 	"github.com/megaease/easegress/pkg/util/verifh"
@@ -36,7 +37,8 @@ func c07Levels(r *verifh.Rand, lim int) (inner, outer int64, inForce int) {
 }
 
 func c07Size(r *verifh.Rand, lim int) int {
-	if lim <= 0 {
+	if lim <= 0 || lim > 1<<40 { // stream, or a limit at the int64 boundary: ordinary sizes
+
 		return r.PickInt(0, 1, 100, 5000, 70000)
 	}
 	switch r.Intn(8) {
@@ -66,6 +68,15 @@ func c07Gen(r *verifh.Rand, i int) interface{} {
 	if big && r.Bool(1, 2) {
 		sc.Cfg.PathMax, sc.Cfg.ServerMax, inForce = 0, 0, c07Default
 	}
+	if r.Bool(1, 20) { // the int64 boundary as the limit in force (inner or outer level)
+		big := int64(math.MaxInt64) - int64(r.PickInt(0, 0, 1))
+		if r.Bool(1, 2) {
+			sc.Cfg.PathMax, sc.Cfg.ServerMax = big, int64(r.PickInt(0, 10, -1))
+		} else {
+			sc.Cfg.PathMax, sc.Cfg.ServerMax = 0, big
+		}
+		inForce = math.MaxInt64
+	}
 	n := c07Size(r, inForce)
 	sc.Body = pxBody{Len: n, Seed: r.Intn(1000), Kind: "text", Enc: r.Pick("cl", "cl", "chunked", "chunked")}
 	if inForce >= 0 && r.Bool(1, 10) && n > 0 { // announces more than it sends (buffered mode only)
@@ -80,6 +91,15 @@ func c07Gen(r *verifh.Rand, i int) interface{} {
 	sc.Cfg.PoolMax, sc.Cfg.ProxyMax, inForce = c07Levels(r, respLim)
 	if big && sc.Cfg.PathMax != 0 {
 		sc.Cfg.PoolMax, sc.Cfg.ProxyMax, inForce = 0, 0, c07Default
+	}
+	if r.Bool(1, 20) {
+		big := int64(math.MaxInt64) - int64(r.PickInt(0, 0, 1))
+		if r.Bool(1, 2) {
+			sc.Cfg.PoolMax, sc.Cfg.ProxyMax = big, int64(r.PickInt(0, 10, -1))
+		} else {
+			sc.Cfg.PoolMax, sc.Cfg.ProxyMax = 0, big
+		}
+		inForce = math.MaxInt64
 	}
 	m := c07Size(r, inForce)
 	sc.Backend = pxBackend{Status: r.PickInt(200, 200, 200, 201, 404, 500), Hdrs: [][2]string{{"X-B", "b"}}}
@@ -106,7 +126,7 @@ func c07Gen(r *verifh.Rand, i int) interface{} {
 // path-level limit, or the rules as well. The path-level limit is mostly unset so that the server level decides.
 func c07ReloadGen(r *verifh.Rand, i int) interface{} {
 	sc := pxScenario{Host: "client.example"}
-	lims := []int64{16, 64, 1000, 4096, -1, 0}
+	lims := []int64{16, 64, 1000, 4096, -1, 0, math.MaxInt64, math.MaxInt64 - 1}
 	pick := func() int64 { return lims[r.Intn(len(lims))] }
 	sc.Cfg = pxCfg{Server: "ip", Compression: -1, PathMax: int64(r.PickInt(0, 0, 0, 0, 32)), ServerMax: pick()}
 	curPath, curSrv, curRules := sc.Cfg.PathMax, sc.Cfg.ServerMax, 0
@@ -124,7 +144,7 @@ func c07ReloadGen(r *verifh.Rand, i int) interface{} {
 		switch {
 		case base < 0:
 			n = r.PickInt(100, 5000, 100000)
-		case base == 0:
+		case base == 0 || base > 1<<40:
 			n = r.PickInt(0, 17, 65, 5000)
 		default:
 			n = int(base) + r.PickInt(-1, 0, 1, 1, 48)
